@@ -123,7 +123,14 @@ Definition is_dir (mode : Z) : bool := (mode / 4096) mod 16 =? 4.       (* (mode
 Definition py_key (name : bytes) (mode : Z) : bytes := if is_dir mode then name ++ [47] else name.
 Definition py_tree_cmp (a : bytes * Z) (b : bytes * Z) : ord := bytes_cmp (py_key (fst a) (snd a)) (py_key (fst b) (snd b)).
 
-(* Rust: cmp_with_suffix *)
+(* Rust: cmp_with_suffix compares name.iter().chain(suffix) lexicographically,
+   the suffix being "/" for a directory and empty otherwise *)
+Definition rs_suffix (mode : Z) : bytes := if is_dir mode then [47] else [].
+Definition rs_tree_cmp (a : bytes * Z) (b : bytes * Z) : ord :=
+  bytes_cmp (fst a ++ rs_suffix (snd a)) (fst b ++ rs_suffix (snd b)).
+
+(* the comparator the crate had before: the common prefix and then a single
+   byte ("/" or NUL standing in for the end of a directory or file name) *)
 Fixpoint rs_cmp_suffix (a b : bytes) (da db : bool) : ord :=
   match a, b with
   | x :: a', y :: b' => match zcmp x y with OEq => rs_cmp_suffix a' b' da db | o => o end
@@ -131,7 +138,7 @@ Fixpoint rs_cmp_suffix (a b : bytes) (da db : bool) : ord :=
   | [], y :: _ => zcmp (if da then 47 else 0) y
   | x :: _, [] => zcmp x (if db then 47 else 0)
   end.
-Definition rs_tree_cmp (a : bytes * Z) (b : bytes * Z) : ord :=
+Definition rs_tree_cmp_one_byte (a : bytes * Z) (b : bytes * Z) : ord :=
   rs_cmp_suffix (fst a) (fst b) (is_dir (snd a)) (is_dir (snd b)).
 
 (* ---------- bisect_find_sha ---------- *)
@@ -152,7 +159,8 @@ Fixpoint py_bisect (fuel : nat) (name : Z -> bytes) (sha : bytes) (start end_ : 
       end
   end.
 Definition py_bisect_top (fuel : nat) name sha s e : bres :=
-  if s >? e then BErr (* assert start <= end *) else py_bisect fuel name sha s e.
+  if negb ((zlen sha =? 20) || (zlen sha =? 32)) then BErr (* ValueError *)
+  else if s >? e then BErr (* assert start <= end *) else py_bisect fuel name sha s e.
 
 Definition i64_ok (x : Z) : bool := (- 9223372036854775808 <=? x) && (x <=? 9223372036854775807).
 
